@@ -1072,7 +1072,10 @@ def sort_index_for_order(
         order = np.lexsort(values_for_lex)
     else:
         # depth is 1
-        v = cfs if cfs_is_array else cfs.values
+        if cfs_is_array:
+            v = cfs if cfs.ndim == 1 else cfs[NULL_SLICE, 0]
+        else:
+            v = cfs.values
         order = np.argsort(v, kind=kind)
 
     if not ascending:
